@@ -74,6 +74,11 @@ func evalInt(e ast.Expr, env map[string]tint) (tint, error) {
 		}
 	case *ast.CallExpr:
 		if id, ok := x.Fun.(*ast.Ident); ok && len(x.Args) == 1 {
+			if id.Name == "len" {
+				if v, ok := env[rules.ExprString(x)]; ok {
+					return v, nil
+				}
+			}
 			if bits, signed, ok := basicInt(id.Name); ok {
 				a, err := evalInt(x.Args[0], env)
 				if err != nil {
@@ -94,7 +99,7 @@ func evalInt(e ast.Expr, env map[string]tint) (tint, error) {
 		switch x.Op {
 		case token.SHL:
 			return tint{v: wrap(a.v<<uint(b.v), a.bits, a.signed), bits: a.bits, signed: a.signed, untyp: a.untyp}, nil
-		case token.OR, token.AND, token.ADD:
+		case token.OR, token.AND, token.ADD, token.SUB:
 			t := a
 			if a.untyp {
 				t = b
@@ -105,6 +110,8 @@ func evalInt(e ast.Expr, env map[string]tint) (tint, error) {
 				r = a.v | b.v
 			case token.AND:
 				r = a.v & b.v
+			case token.SUB:
+				r = a.v - b.v
 			default:
 				r = a.v + b.v
 			}
